@@ -30,6 +30,9 @@ trace <i> SCRIPT :: <sys>…        -> <i> trace <accept|reject@pos> <match|expe
                                                  failed rename, unlink of the temp file, D = dest touched)
 kill <i> <syscall>:<N> SCRIPT :: <same|L:FNV>   -> <i> kill <ok|BAD>   (destination observed after SIGKILL on
                                                   entry to the N-th such syscall on the two paths)
+seq <i> <old:H|none> SCRIPT :: SCRIPT :: …   -> <i> | ret .. dest <absent|L:FNV> tmp .. | …
+                                     (one client, one destination: the state that outlives a call is the file
+                                     system and whether an earlier step ran into a cut — then every call fails)
 sibling <i> <name H>              -> <i> temp <H>   (name of the temp sibling: `tempSibling Gen.Commit.tempSuffix`)
 nest <i> <nameA H> <nameB H> SCRIPT_A :: SCRIPT_B
                                   -> <i> A ret .. dest .. tmp .. B ret .. dest .. tmp ..  | <i> alias
@@ -83,6 +86,7 @@ structure Parsed where
   stale : Bool := false   -- a stale temp file exists before the pull
   verifyPanics : Bool := false
   digestPanics : Bool := false   -- fault `pN`: the digest sink panics (instead of `Err`) past N bytes
+  openCut : Bool := false        -- `open` was answered by closing the connection
 
 def compOf : String → Option Comp
   | "none" => some .none | "zstd" => some .zstd | _ => none
@@ -111,7 +115,7 @@ def parseScript (ws : List String) : Option (Parsed × List String) :=
                       else if wf.startsWith "d" ∨ wf.startsWith "p" then (if p.verifies then some (natOf (wf.drop 1).toString) else none)
                       else some (natOf wf),
                     syncOk := wf ≠ "sync", createOk := de ≠ "noparent" },
-                ⟨fun _ => dec, fun _ => []⟩, de = "olds" ∨ de = "nones", ve.startsWith "panic", wf.startsWith "p"⟩, after)
+                ⟨fun _ => dec, fun _ => []⟩, de = "olds" ∨ de = "nones", ve.startsWith "panic", wf.startsWith "p", op = "cut"⟩, after)
       else none
     | _, _, _, _ => none
   | _ => none
@@ -174,6 +178,39 @@ def killStates (q : Parsed) : List String :=
       | some c => digest c
       | none => "gone"
 
+/-- The pull of this script runs into a connection cut: the client is dead afterwards. -/
+def hitsCut (q : Parsed) : Bool :=
+  if q.openCut then true
+  else if !q.s.openOk || !preOk q.p q.s then false
+  else
+    let rec go : Wire → Bool
+      | [] => true
+      | .chunk _ false :: r => go r
+      | .chunk _ true :: _ => false
+      | .error :: _ => false
+      | .cut :: _ => true
+    go q.s.wire
+
+/-- Pulls through one client into one destination: the file system and the connection's liveness are the
+only state that outlives a call. -/
+def seqObs : FS → Bool → List Parsed → List String
+  | _, _, [] => []
+  | fs, alive, q :: rest =>
+    let q' : Parsed := if alive then q else { q with s := { q.s with openOk := false } }
+    let r := runOf q'
+    let fs' := runOps fs r.ops
+    let d := match fs'.dest with
+      | some c => digest c
+      | none => "absent"
+    joinSp ["| ret", showRet r.ret, "dest", d, "tmp", if fs'.tmp.isSome then "1" else "0"] ::
+      seqObs fs' (alive && !hitsCut q) rest
+
+partial def parseMany (ws : List String) : Option (List Parsed) :=
+  match parseScript ws with
+  | some (q, []) => some [q]
+  | some (q, rest) => (parseMany rest).map (q :: ·)
+  | none => none
+
 def valueObs (mode : String) (comp : Comp) (need : Nat) (dec : Option Bytes) (openOk beve : Bool) (wire : Wire) : String :=
   let async := mode.endsWith "async"
   let base := if async then (mode.dropEnd 5).toString else mode
@@ -214,6 +251,13 @@ def step (st : Unit) (ws : List String) : Unit × String :=
         (st, joinSp [idx, "trace", acc, if same then "match" else "expected:" ++ ",".intercalate (want.map showSys)])
       | none => (st, idx ++ " bad-op")
     | none => (st, idx ++ " bad-op")
+  | "seq" :: idx :: init :: rest =>
+    let fs0 : Option FS := if init = "none" then some ⟨none, none⟩
+      else if init.startsWith "old:" then (bytesOfHex (init.drop 4).toString).map fun b => ⟨some b, none⟩
+      else none
+    match fs0, parseMany rest with
+    | some fs, some qs => (st, joinSp (idx :: seqObs fs true qs))
+    | _, _ => (st, idx ++ " bad-op")
   | ["sibling", idx, nm] =>
     match bytesOfHex nm with
     | some b => (st, idx ++ " temp " ++ hexOfBytes (b ++ Gen.Commit.tempSuffix.toUTF8.toList))
